@@ -277,6 +277,10 @@ func init() {
 		return nil
 	}
 	pathsim.DefaultInline = func(p *prog.Prog, fi *prog.FuncInfo) bool { return isNewHelper(p, fi) }
+	pathsim.BindCall = func(callerInfo *types.Info, fi *prog.FuncInfo, call *ast.CallExpr) func() {
+		bindStack = append(bindStack, bindFrame(callerInfo, fi.Decl.Type, call))
+		return func() { bindStack = bindStack[:len(bindStack)-1] }
+	}
 }
 
 // deref follows an identifier to what it stands for, up to three steps: a local variable
